@@ -8,6 +8,7 @@ pub mod keyenc;
 pub mod keyenc_gen;
 pub mod keyenc_glue;
 pub mod keyenc_val;
+pub mod simd;
 
 pub fn run(engine: &str, ctx: &Ctx) -> Report {
     match engine {
@@ -17,6 +18,7 @@ pub fn run(engine: &str, ctx: &Ctx) -> Report {
         "budget" => budget::run(ctx),
         "pagelocks" => pagelocks::run(ctx),
         "keyenc" => keyenc::run(ctx),
+        "simd" => simd::run(ctx),
         _ => {
             eprintln!("unknown engine {engine}");
             std::process::exit(2);
